@@ -1481,7 +1481,7 @@ func TestCheck(t *testing.T) {
 	r.Assume("event sets respect what the DAG guarantees: clock(tx) > clock(prev) for every prev, unique refs; signing times are NOT assumed to follow causal order")
 	r.Assume("transactions are delivered one at a time (the ambassador is a single sequential subscriber); concurrent Add is out of scope")
 
-	nSets := r.Pick(40, 208)
+	nSets := r.Pick(40, 169)
 	limit := r.Pick(24, 120)
 	// independent stores per order: quick 2; thorough 3 for sets with <= 24 orders, else alternately 2 and 1
 	// (measured cost is ~0.2 CPU-s per store under -race, so the 144k stores of the design estimate do not fit the budget)
